@@ -5,6 +5,7 @@ package c20
 import (
 	"fmt"
 	"math"
+	"reflect"
 	"regexp"
 	"sort"
 	"strings"
@@ -234,41 +235,43 @@ func Run(cs Case, c *vrt.Ctx) {
 	// A plan can store the root (or $.asm) inside $.asm; string, equal / neq and include then
 	// recurse without end on the cyclic value and the process dies with a stack overflow
 	// that no recover catches (known finding C20-K3). Such plans are counted, not executed.
-	cyclic, deepFn := false, false
-	var strs func(v any)
-	strs = func(v any) {
-		switch tv := v.(type) {
-		case string:
-			// anything that reads the root or something under $.asm can be stored under $.asm
-			// again (a list into its own element: [setall "$.asm.all[*]" $.asm.all])
-			if tv == "$" || tv == "@" || strings.HasPrefix(tv, "$.asm") || strings.HasPrefix(tv, "@.asm") {
-				cyclic = true
-			}
-		case []any:
-			skip := -1
-			if name, _, ok := isCall(tv); ok {
-				switch name {
-				case "set", "setall", "del", "delall":
-					skip = 1 // the target path is written to, not read
-				}
-			}
-			for i, e := range tv {
-				if i != skip {
-					strs(e)
-				}
-			}
-		}
-	}
-	strs(plan)
+	deepFn := false
 	walk(plan, func(name string, args []any) {
 		switch name {
 		case "string", "equal", "eq", "==", "neq", "!=", "include", "inspect":
 			deepFn = true
 		}
 	})
-	if cyclic && deepFn {
-		c.Fail("crash-by-construction", "Plan.Execute", "a plan that stores the root inside itself and then applies string / equal / include to it overflows the stack (not executed); "+ctxOf(planText, rootText), "cyclic-root-then-deep-function")
-		return
+	if deepFn {
+		// run the plan step by step (prefixes of the top level sequence, each on a fresh root)
+		// and look for a cycle in the root before the next step runs
+		steps := plan
+		if name, args, ok := isCall(plan); ok && name == "asm" {
+			steps = args
+		} else if ok {
+			steps = nil // a single call: nothing runs before it
+		}
+		for k := 1; k < len(steps); k++ {
+			root := freshRoot(cs)
+			prefix := append([]any{"asm"}, canon.Copy(steps[:k]).([]any)...)
+			hasDeep := false
+			walk(prefix, func(name string, args []any) {
+				switch name {
+				case "string", "equal", "eq", "==", "neq", "!=", "include", "inspect":
+					hasDeep = true
+				}
+			})
+			if hasDeep {
+				break // the prefix itself applies a deep function: covered by the earlier prefixes
+			}
+			if o := execute(prefix, root); o.panic != "" {
+				break
+			}
+			if isCyclic(root, map[uintptr]bool{}) {
+				c.Fail("crash-by-construction", "Plan.Execute", "the plan makes the root cyclic and then applies string / equal / include (not executed); "+ctxOf(planText, rootText), "cyclic-root-then-deep-function")
+				return
+			}
+		}
 	}
 	// reference
 	r, refErr, refOpen := reference(cs, plan, false)
@@ -399,6 +402,42 @@ func window(a, b string) (string, string) {
 
 // the function names - and + written bare by the SEN writer (C10-K1)
 var barePlusMinus = regexp.MustCompile(`\[[-+][ \]]`)
+
+// isCyclic reports whether a container is reachable from itself.
+func isCyclic(v any, onPath map[uintptr]bool) bool {
+	var id uintptr
+	switch tv := v.(type) {
+	case map[string]any:
+		id = reflect.ValueOf(tv).Pointer()
+	case []any:
+		if len(tv) == 0 {
+			return false
+		}
+		id = reflect.ValueOf(tv).Pointer()
+	default:
+		return false
+	}
+	if onPath[id] {
+		return true
+	}
+	onPath[id] = true
+	defer delete(onPath, id)
+	switch tv := v.(type) {
+	case map[string]any:
+		for _, e := range tv {
+			if isCyclic(e, onPath) {
+				return true
+			}
+		}
+	case []any:
+		for _, e := range tv {
+			if isCyclic(e, onPath) {
+				return true
+			}
+		}
+	}
+	return false
+}
 
 func ctxOf(planText, rootText string) string {
 	return fmt.Sprintf("plan=%s root=%s", planText, rootText)
